@@ -29,7 +29,7 @@ BUF_SIZES = [1, 2, 3, 4, 5, 6, 7, 8, 9, 15, 16, 17, 63, 16384]
 
 def gen_scn(rng, idx=0):
     tables = scenario.TABLE_OPTS[idx % len(scenario.TABLE_OPTS)]
-    sc = scenario.gen_scenario(rng, forbid=('vtrail',), want={'flavors': ['nr', 'nr', 'r', 'r', 'c99'], 'tables': tables})
+    sc = scenario.gen_scenario(rng, forbid=('vtrail',), want={'flavors': ['nr', 'nr', 'r', 'r', 'c99', 'c99'], 'tables': tables})
     sc.buf_size = None
     return sc
 
